@@ -15,7 +15,9 @@ import (
 
 // driveRand: seeded random histories on the real store with bigger universes than the model-checked ones (up to 8
 // candidates, list sizes 1..4, votes with many ties, address tables with shared prefixes in random order, forks up
-// to maxlive blocks, stabilisations and restarts with unconfirmed blocks present).  It only generates VALID inputs
+// to maxlive blocks, stabilisations and restarts with unconfirmed blocks present; a vote map per history that puts
+// the vote values on both sides of the boundaries at which the persisted candidate record changes its length - a
+// vote change is biased towards the neighbouring value, i.e. across one boundary).  It only generates VALID inputs
 // (an unregistered candidate stays at 0 votes; the touched candidate has no vote change), reading the enabling
 // conditions from the account views the real store reports; results are judged by TLC (TraceRanking.tla).
 func driveRand(args []string) error {
@@ -62,7 +64,8 @@ func driveRand(args []string) error {
 		s.perm = rng.Perm(len(tables[s.table]))
 		nc := 3 + rng.Intn(*maxNC-2)
 		s.k = 1 + rng.Intn(*maxK)
-		fl := s.reset(nc)
+		// a free vote map per history: the model values 1..maxVotes are real totals on both sides of length boundaries
+		fl := s.reset(nc, freeMap, drawVoteMap(rng, *maxVotes))
 		if err := emit("reset", h, 0, nil, fl); err != nil {
 			return err
 		}
@@ -99,8 +102,13 @@ func driveRand(args []string) error {
 						nv[i] = 1 + rng.Intn(*maxVotes)
 					case reg == 1 && x < 12:
 						nv[i] = 0
-					case reg == 1 && x < 50:
+					case reg == 1 && x < 30:
 						nv[i] = 1 + rng.Intn(*maxVotes)
+					case reg == 1 && x < 50: // the neighbouring value
+						nv[i] = cur + 1 - 2*rng.Intn(2)
+						if nv[i] < 1 || nv[i] > *maxVotes {
+							nv[i] = cur
+						}
 					}
 				}
 				ev, a = "Block", []interface{}{p, nv, t}
